@@ -67,7 +67,7 @@ def api_tie(run: Run, n: int):
         c = cases[b]
         q = c["query"][0]
         ops = A.tree_ops(c["tree"], [])
-        run.fail(f"api-differs-from-model:{q}:{ops[-1] if ops else 'leaf'}",
+        run.fail(f"api-differs-from-model:{q}",
                  "the real WeightedTensor API and the Coq model disagree on this operation tree (the theorems are about the model)",
                  dict(scenario="api", case=A.jsonable(c)), expected="model outcome (run Leaspy.Masked.Weighted.run in Coq)",
                  observed=A.coq_outcome(A.observe(c, torch, wtmod))[:400])
@@ -127,6 +127,7 @@ def main(run: Run):
     api_tie(run, 50000 if thorough else 3000)
     witness_on_code(run)
     try:
+        P.put_data_tie(run, 400 if thorough else 60)
         P.run_oracle(run, thorough)
     except Exception as e:  # noqa: BLE001
         import traceback
